@@ -21,6 +21,20 @@ from .frontend import Repo, strip_docstring, ModuleInfo
 from .contracts import Registry, Contract
 
 
+def _has_quantifier(f) -> bool:
+    seen = set()
+    stack = [f]
+    while stack:
+        t = stack.pop()
+        if t.get_id() in seen:
+            continue
+        seen.add(t.get_id())
+        if z3.is_quantifier(t):
+            return True
+        stack.extend(t.children())
+    return False
+
+
 class Exec(ExprMixin, HeapMixin, StmtMixin, CallMixin, BuiltinMixin):
     def __init__(self, repo: Repo, reg: Registry, unit: str):
         self.repo = repo
@@ -55,6 +69,12 @@ class Exec(ExprMixin, HeapMixin, StmtMixin, CallMixin, BuiltinMixin):
         self.bytes_items: dict = {}
         self.entry_state: State | None = None
         self.param_values: dict = {}
+        self.bound_vars: list = []
+        self._spec_facts = None
+        from .contracts import split_unit
+        self.unit_base, self.instance = split_unit(unit)
+        for k, v in self.instance.items():
+            self.extra_globals[k] = V(INT, I(v))
 
     # ------------------------------------------------------------------ utilities
     def src(self, node) -> str:
@@ -72,6 +92,27 @@ class Exec(ExprMixin, HeapMixin, StmtMixin, CallMixin, BuiltinMixin):
 
     def feasible(self, st: State) -> bool:
         return True
+
+    def const_of(self, term, st: State):
+        """If the quantifier-free part of the path condition forces `term` to one integer value,
+        return that literal (used so that `x % self._capacity` is linear when an instance pins the
+        field).  Only active for units verified per instance; otherwise returns term unchanged."""
+        t = z3.simplify(term)
+        if z3.is_int_value(t) or not self.instance:
+            return t
+        facts = [f for f in list(st.pc) + list(st.guards) if not _has_quantifier(f)]
+        s = z3.SimpleSolver()
+        s.set("timeout", 2000)
+        s.add(*facts)
+        if s.check() != z3.sat:
+            return t
+        val = s.model().eval(t, model_completion=True)
+        if not z3.is_int_value(val):
+            return t
+        s.add(t != val)
+        if s.check() == z3.unsat:
+            return val
+        return t
 
     def bind(self, st, v, base="t"):
         if self.spec_mode:
@@ -129,11 +170,16 @@ class Exec(ExprMixin, HeapMixin, StmtMixin, CallMixin, BuiltinMixin):
         saved_old = self.spec_old_state
         if old is not None:
             self.spec_old_state = old
+        saved_facts = self._spec_facts
+        self._spec_facts = []
         try:
             return self.ev(tree, tmp)
         finally:
             self.spec_mode -= 1
             self.spec_old_state = saved_old
+            for f in self._spec_facts:
+                st.pc.append(f)
+            self._spec_facts = saved_facts
 
     def special_form(self, e: ast.Call, st):
         if self.spec_mode and isinstance(e.func, ast.Name):
@@ -191,6 +237,7 @@ class Exec(ExprMixin, HeapMixin, StmtMixin, CallMixin, BuiltinMixin):
         for n, v in zip(names, vars_):
             frame[n] = V(INT, v)
         st.frames[-1] = frame
+        self.bound_vars.extend(vars_)
         try:
             rng = []
             if len(bounds) == 2 * len(names):
@@ -203,12 +250,19 @@ class Exec(ExprMixin, HeapMixin, StmtMixin, CallMixin, BuiltinMixin):
             body = self.truth(self.ev(lam.body, st), st)
         finally:
             st.frames[-1] = saved
-        pats = self.infer_patterns(body, vars_)
+            del self.bound_vars[len(self.bound_vars) - len(vars_):]
         guard = z3.And(*rng) if rng else z3.BoolVal(True)
         if universal:
+            pats = self.infer_patterns(body, vars_)
             q = z3.ForAll(vars_, z3.Implies(guard, body), patterns=pats) if pats else z3.ForAll(vars_, z3.Implies(guard, body))
         else:
-            q = z3.Exists(vars_, z3.And(guard, body))
+            # exists k. P(k)  is encoded as  not forall k {Wit(k)}. not (Wit(k) and P(k)):  assumed, it skolemises to a
+            # witness sk with Wit(sk); as a goal, E-matching instantiates it with every term t for which Wit(t) is
+            # known (from a callee's existential or an explicit wit(t) conjunct).  Wit is an uninterpreted predicate.
+            W = prelude().func("Wit", Int, Bool)
+            wits = [W(v) for v in vars_]
+            pat = wits[0] if len(wits) == 1 else z3.MultiPattern(*wits)
+            q = z3.Not(z3.ForAll(vars_, z3.Not(z3.And(guard, body, *wits)), patterns=[pat]))
         return V(BOOL, q)
 
     def spec_forall(self, e, st):
@@ -314,6 +368,52 @@ class Exec(ExprMixin, HeapMixin, StmtMixin, CallMixin, BuiltinMixin):
         al = self.alloc0 if self.alloc0 is not None else self.alloc_map(st)
         return V(BOOL, z3.Not(z3.Select(al, v.z)))
 
+    def spec_wit(self, e, st):
+        """wit(t): always true; makes t available as an instantiation candidate for exists()."""
+        W = prelude().func("Wit", Int, Bool)
+        t = self.as_int(self.ev(e.args[0], st), st, e)
+        return V(BOOL, W(t))
+
+    def spec_joined(self, e, st):
+        """joined(lambda k: bytes_expr, n): concatenation of bytes_expr for k = 0 .. n-1 (b''.join).
+        Encoded as Join(F) for a fresh sequence F (a function of the enclosing bound variables) defined
+        pointwise; the definition is a conservative extension and is added to the unit's global facts."""
+        lam = e.args[0]
+        if not isinstance(lam, ast.Lambda) or len(lam.args.args) != 1 or len(e.args) != 2:
+            raise Unsupported("joined(lambda k: e, n)")
+        n = self.as_int(self.ev(e.args[1], st), st, e)
+        th = seq_theory(BYTES)
+        outer = list(self.bound_vars)
+        name = fresh_name("joinsrc")
+        if outer:
+            F = z3.Function(name, *([Int] * len(outer) + [th.S]))
+            mk = F(*outer)
+        else:
+            mk = z3.Const(name, th.S)
+        k = z3.Int(fresh_name("k"))
+        saved = st.frames[-1]
+        frame = dict(saved)
+        frame[lam.args.args[0].arg] = V(INT, k)
+        st.frames[-1] = frame
+        self.bound_vars.append(k)
+        try:
+            body = self.ev(lam.body, st)
+        finally:
+            st.frames[-1] = saved
+            self.bound_vars.pop()
+        if isinstance(body.t, TOpt):
+            body = opt_get(body)
+        if not isinstance(body.t, TBytes):
+            raise Unsupported(f"joined over {body.t}")
+        ax_len = th.Len(mk) == z3.If(n >= 0, n, 0)
+        ax_idx = z3.Implies(z3.And(0 <= k, k < n), th.Idx(mk, k) == body.z)
+        if outer:
+            self.global_facts.append(z3.ForAll(outer, ax_len, patterns=[mk]))
+        else:
+            self.global_facts.append(ax_len)
+        self.global_facts.append(z3.ForAll(outer + [k], ax_idx, patterns=[th.Idx(mk, k)]))
+        return V(BYTES, self.joindata(th)(mk))
+
     def spec_pow2(self, e, st):
         return V(INT, prelude().pow2(self.as_int(self.ev(e.args[0], st), st, e)))
 
@@ -336,7 +436,8 @@ class Exec(ExprMixin, HeapMixin, StmtMixin, CallMixin, BuiltinMixin):
     def spec_same(self, e, st):
         """same(a, b): reference identity / primitive equality without __eq__."""
         a, b = self.ev(e.args[0], st), self.ev(e.args[1], st)
-        return V(BOOL, box(a) == box(coerce(b, a.t)))
+        t = join_types(a.t, b.t)
+        return V(BOOL, box(coerce(a, t)) == box(coerce(b, t)))
 
     # ------------------------------------------------------------------ ghost code
     def exec_ghost(self, src: str, st: State):
@@ -384,6 +485,7 @@ class Exec(ExprMixin, HeapMixin, StmtMixin, CallMixin, BuiltinMixin):
     def verify_function(self, qual: str, c: Contract, mi, ci, fnode):
         """Generate the VCs of one function against its own contract."""
         self.unit_qual_inlining = qual
+        self.merge_enabled = c.merge
         st = State()
         self.ctx.append((mi, ci, fnode))
         self.contract_stack.append(c)
@@ -489,8 +591,13 @@ class Exec(ExprMixin, HeapMixin, StmtMixin, CallMixin, BuiltinMixin):
     def check_frame(self, c, ci, fin: State, entry: State):
         """modifies clause: every heap map written by the body outside the declared frame is
         unchanged on objects allocated at entry."""
+        for key, goal in self.frame_goals(c, fin, entry):
+            self.oblige(fin, goal, "modifies", f"frame of {key}", None, note=f"only {c.modifies} may change")
+
+    def frame_goals(self, c, fin: State, entry: State):
         if c.modifies is None or c.modifies == ["*"]:
-            return
+            return []
+        out = []
         P = prelude()
         declared_maps = {}
         whole = set()
@@ -540,8 +647,10 @@ class Exec(ExprMixin, HeapMixin, StmtMixin, CallMixin, BuiltinMixin):
             r = z3.Const(fresh_name("r"), P.Ref)
             excl = [r != x for x in declared_maps.get(key, [])]
             hyp = z3.And(*( [z3.Select(al0, r)] if al0 is not None else [] ) + excl) if (excl or al0 is not None) else z3.BoolVal(True)
-            goal = z3.ForAll([r], z3.Implies(hyp, z3.Select(m, r) == z3.Select(m0, r)))
-            self.oblige(fin, goal, "modifies", f"frame of {key}", None, note=f"only {c.modifies} may change")
+            goal = z3.ForAll([r], z3.Implies(hyp, z3.Select(m, r) == z3.Select(m0, r)),
+                             patterns=[z3.Select(m, r)])
+            out.append((key, goal))
+        return out
 
     # ------------------------------------------------------------------ harnesses and lemmas
     def verify_harness(self, h):
